@@ -27,6 +27,7 @@ import traceback
 
 VERIF = os.path.dirname(os.path.dirname(os.path.dirname(os.path.abspath(__file__))))
 REPO = os.environ.get("VERIF_REPO_ROOT", "/repo")
+OUT = os.environ.get("VERIF_OUT_DIR", VERIF)        # evidence/ and replays/ live here (scratch dir for seeded runs)
 MAX_EXAMPLES = 3
 MAX_REPLAYED_SIGS = 6
 
@@ -244,7 +245,7 @@ def run_units(check, units, procs):
 # ------------------------------------------------------------------------------------------------
 
 def write_replay(pid, sig, example, tier, seed):
-    d = os.path.join(VERIF, "replays", pid)
+    d = os.path.join(OUT, "replays", pid)
     os.makedirs(d, exist_ok=True)
     body = {"property_id": pid, "signature": sig, "case": example["case"],
             "observed": example["observed"], "message": example["msg"], "tier": tier, "seed": seed,
@@ -342,7 +343,7 @@ def write_evidence(check, acc, tier, seed, wall, violations, info):
         "coverage": cov, "assumptions": info.get("assumptions", []),
         "wall_s": round(wall, 3), "violations": int(violations),
     }
-    path = os.path.join(VERIF, "evidence", "%s.json" % check.ID)
+    path = os.path.join(OUT, "evidence", "%s.json" % check.ID)
     os.makedirs(os.path.dirname(path), exist_ok=True)
     tmp = path + ".tmp%d" % os.getpid()
     with open(tmp, "w") as f:
